@@ -254,7 +254,7 @@ def run(ctx):
                 evals += 1
                 if it[0] == "TIMEOUT":
                     mismatches.append(("iteration-hang", dict(c2, model=mR)))
-                    oracle_fail.append((None, "%s never returned (20 s)" % KINDS[k], c2))
+                    oracle_fail.append((None, "%s never returned (120 s)" % KINDS[k], c2))
                     continue
                 act, rl, acc = it
                 ir = parse_R(rl); mr = parse_R(mR)
